@@ -192,13 +192,11 @@ Lemma run_audition_obs c es os s : run_audition c es = (os, s, Running) ->
 Proof.
   unfold run_audition.
   destruct (mood_change c (init_st c) false 0 "clear") as [[s1 o0] st0] eqn:E0.
-  destruct (run_events c s1 st0 es) as [[os1 s2] st2] eqn:E1.
+  destruct st0; try (intros H; inversion H; fail).
+  destruct (run_events c s1 Running es) as [[os1 s2] st2] eqn:E1.
   intros H; inversion H; subst.
   cbn [List.concat]. rewrite obs_in_app, (mood_change_obs _ _ _ _ _ _ _ _ E0). cbn [app].
-  destruct st0.
-  - exact (run_events_obs _ _ _ _ _ E1).
-  - exfalso. exact (run_events_aborted_not_running _ _ _ _ _ _ E1 eq_refl).
-  - exfalso. destruct (run_events_panicked c es s1) as [Hp| ->]; [rewrite Hp in E1 | cbn in E1]; inversion E1.
+  exact (run_events_obs _ _ _ _ _ E1).
 Qed.
 
 End SignalVar.
